@@ -1119,4 +1119,429 @@ theorem mergeLoop_pick_flag (inp : Input) (labels : Labels) (pickOurs : Bool) :
         · simp at h
         · exact ih _ _ _ _ _ h
 
+
+/-- the two copies of every hunk, ours first -/
+def pairUp (hs : List (Range × Range)) : List Hunk :=
+  hs.flatMap fun (b, a) => [Hunk.mk b a .current, Hunk.mk b a .other]
+
+theorem sort_pull (k : Hunk) : ∀ (X Y : List Hunk), (∀ x ∈ X, k.before.start < x.before.start) →
+    (∀ y ∈ Y, k.before.start ≤ y.before.start) → sortByStart (X ++ k :: Y) = k :: sortByStart (X ++ Y) := by
+  intro X
+  induction X with
+  | nil =>
+    intro Y _ hY
+    simp only [List.nil_append, sortByStart]
+    apply insert_le_all
+    intro x hx
+    exact hY x ((mem_sortByStart x Y).mp hx)
+  | cons x X ih =>
+    intro Y hX hY
+    simp only [List.cons_append, sortByStart]
+    rw [ih Y (fun z hz => hX z (by simp [hz])) hY]
+    have := hX x (by simp)
+    simp only [insertByStart]
+    rw [if_neg (by omega)]
+
+theorem diffOk_lower_strict {base side : List Bytes} : ∀ {hs : List (Range × Range)} {pb ps : Nat},
+    diffOkFrom base side pb ps false hs = true → ∀ h ∈ hs, pb < h.1.start := by
+  intro hs
+  cases hs with
+  | nil => intro _ _ _ h hh; simp at hh
+  | cons x rest =>
+    intro pb ps hok h hh
+    obtain ⟨b, a⟩ := x
+    simp only [diffOkFrom, Bool.and_eq_true, decide_eq_true_eq, Bool.false_or] at hok
+    obtain ⟨⟨⟨⟨⟨⟨⟨⟨⟨⟨h1, h2⟩, h3⟩, h4⟩, h5⟩, h6⟩, h7⟩, h8⟩, h9⟩, h10⟩, h11⟩ := hok
+    simp only [List.mem_cons] at hh
+    rcases hh with rfl | hh
+    · exact h8
+    · have := diffOk_lower h11 h hh
+      omega
+
+theorem sort_pairs {base side : List Bytes} : ∀ {hs : List (Range × Range)} {pb ps : Nat} {first : Bool},
+    diffOkFrom base side pb ps first hs = true →
+    sortByStart (oneSide .current hs ++ oneSide .other hs) = pairUp hs := by
+  intro hs
+  induction hs with
+  | nil => intro _ _ _ _; rfl
+  | cons x rest ih =>
+    intro pb ps first hok
+    obtain ⟨b, a⟩ := x
+    have hok' := hok
+    simp only [diffOkFrom, Bool.and_eq_true, decide_eq_true_eq] at hok
+    obtain ⟨⟨⟨⟨⟨⟨⟨⟨⟨⟨h1, h2⟩, h3⟩, h4⟩, h5⟩, h6⟩, h7⟩, h8⟩, h9⟩, h10⟩, h11⟩ := hok
+    have hlow := diffOk_lower h11
+    simp only [oneSide, List.map_cons, List.cons_append, sortByStart, pairUp, List.flatMap_cons]
+    have hpull := sort_pull (Hunk.mk b a .other) (oneSide .current rest) (oneSide .other rest)
+      (by
+        intro x hx
+        simp only [oneSide, List.mem_map] at hx
+        obtain ⟨y, hy, rfl⟩ := hx
+        have := diffOk_lower_strict h11 y hy
+        simp; omega)
+      (by
+        intro x hx
+        simp only [oneSide, List.mem_map] at hx
+        obtain ⟨y, hy, rfl⟩ := hx
+        have := hlow y hy
+        simp; omega)
+    simp only [oneSide] at hpull ih
+    rw [hpull, ih h11]
+    simp [insertByStart, pairUp]
+
+
+
+theorem fillAncestor_single (r : Range) (h : Hunk) (hr : h.before = r) : fillAncestor r [h] = .ok [h] := by
+  subst hr
+  simp [fillAncestor, fillFront, fillGaps, fillSort, fillBack, bind, Except.bind]
+
+theorem isEolCrlf_ok (inp : Input) (hs : List Hunk) : ∃ r, isEolCrlf inp hs = .ok r := by
+  unfold isEolCrlf
+  cases hp : hs.reverse.findSome? (fun h =>
+      if !h.after.isEmpty then some (h.after, h.side)
+      else if !h.before.isEmpty then some (h.before, Side.ancestor) else none) with
+  | none => exact ⟨none, rfl⟩
+  | some v =>
+    obtain ⟨range, side⟩ := v
+    have hne : range.stop ≠ 0 := by
+      obtain ⟨h, _, hh⟩ := List.exists_of_findSome?_eq_some hp
+      split at hh
+      · rename_i he
+        simp only [Option.some.injEq, Prod.mk.injEq] at hh
+        obtain ⟨rfl, _⟩ := hh
+        simp [Range.isEmpty] at he; omega
+      · split at hh
+        · rename_i he
+          simp only [Option.some.injEq, Prod.mk.injEq] at hh
+          obtain ⟨rfl, _⟩ := hh
+          simp [Range.isEmpty] at he; omega
+        · simp at hh
+    simp only
+    rw [if_neg (by simpa using hne)]
+    repeat' split
+    all_goals exact ⟨_, rfl⟩
+
+theorem detectLineEnding_ok (inp : Input) (hs : List Hunk) : ∃ r, detectLineEnding inp hs = .ok r := by
+  obtain ⟨r, hr⟩ := isEolCrlf_ok inp hs
+  unfold detectLineEnding
+  rw [hr]
+  exact ⟨_, rfl⟩
+
+theorem detectLineEndingOrNl_ok (inp : Input) (hs : List Hunk) : ∃ r, detectLineEndingOrNl inp hs = .ok r := by
+  obtain ⟨r, hr⟩ := detectLineEnding_ok inp hs
+  unfold detectLineEndingOrNl
+  rw [hr]
+  exact ⟨_, rfl⟩
+
+def sameStep (s : Nat) (k : Nat) : (Nat × Nat × Side) × (Nat × Nat × Side) :=
+  ((s + k, 0, Side.current), (s + k, 0, Side.other))
+
+theorem scanEqual_same (inp : Input) (hcur : inp.cur = inp.oth) (s : Nat) : ∀ (ks : List Nat) (st : ScanState),
+    st.lastA = 0 → st.lastB = 0 → (∀ k ∈ ks, s + k < inp.cur.length) →
+    scanEqual inp (ks.map (sameStep s)) st = .ok (match ks.getLast? with
+      | none => st
+      | some k => { st with removeA := some 0, removeB := some 0, tokA := some (s + k), tokB := some (s + k) }) := by
+  intro ks
+  induction ks with
+  | nil => intro st _ _ _; rfl
+  | cons k ks ih =>
+    intro st hA hB hk
+    obtain ⟨lA, lB, rA, rB, tA, tB⟩ := st
+    simp only at hA hB
+    subst hA hB
+    have hlt := hk k (by simp)
+    have hl1 : lineContent inp (s + k) .current = .ok inp.cur[s + k] := by
+      simp [lineContent, Input.tokens, List.getElem?_eq_getElem hlt]
+    have hl2 : lineContent inp (s + k) .other = .ok inp.cur[s + k] := by
+      have hlt' : s + k < inp.oth.length := by rw [← hcur]; exact hlt
+      simp only [lineContent, Input.tokens, List.getElem?_eq_getElem hlt']
+      congr 1
+      simp [hcur]
+    simp only [List.map_cons, sameStep, scanEqual, bind, Except.bind, hl1, hl2, bne_self_eq_false,
+      Bool.false_eq_true, if_false, beq_self_eq_true, if_true]
+    have := ih { lastA := 0, lastB := 0, removeA := some 0, removeB := some 0, tokA := some (s + k), tokB := some (s + k) }
+      rfl rfl (fun j hj => hk j (by simp [hj]))
+    simp only [sameStep] at this
+    rw [this]
+    cases hks : ks.getLast? with
+    | none =>
+      have : ks = [] := List.getLast?_eq_none_iff.mp hks
+      subst this; rfl
+    | some j =>
+      have : (k :: ks).getLast? = some j := by
+        cases ks with
+        | nil => simp at hks
+        | cons x xs => rw [List.getLast?_cons_cons]; exact hks
+      rw [this]
+
+
+
+theorem iterate_pair (b a : Range) :
+    (iterateHunks [Hunk.mk b a .current]).zip (iterateHunks [Hunk.mk b a .other]) =
+      (List.range (a.stop - a.start)).map (sameStep a.start) := by
+  simp only [iterateHunks, List.zipIdx_cons, List.zipIdx_nil, List.flatMap_cons, List.flatMap_nil, List.append_nil,
+    Hunk.range, Nat.zero_add]
+  rw [List.zip_map']
+  rfl
+
+theorem getLast_range (n : Nat) : (List.range n).getLast? = if n = 0 then none else some (n - 1) := by
+  cases n with
+  | zero => rfl
+  | succ n => simp [List.range_succ]
+
+theorem contract_same (inp : Input) (hcur : inp.cur = inp.oth) (b a : Range)
+    (h1 : a.start ≤ a.stop) (h2 : a.stop ≤ inp.cur.length) :
+    zealouslyContract inp [Hunk.mk b a .current] [Hunk.mk b a .other] =
+      .ok (if a.start < a.stop then { a := [], b := [], front := [Hunk.mk b a .current], back := [] }
+           else { a := [Hunk.mk b a .current], b := [Hunk.mk b a .other], front := [], back := [] }) := by
+  unfold zealouslyContract
+  rw [iterate_pair, scanEqual_same inp hcur a.start (List.range (a.stop - a.start)) {} rfl rfl
+    (by intro k hk; simp at hk; omega), getLast_range]
+  by_cases hn : a.start < a.stop
+  · have hne : a.stop - a.start ≠ 0 := by omega
+    have htok : a.start + (a.stop - a.start - 1) + 1 = a.stop := by omega
+    simp only [hne, if_false, hn, if_true, bind, Except.bind, pure, Except.pure]
+    simp [truncateFront, truncateBack, Hunk.range, Hunk.setRange, Range.isEmpty, htok, iterateHunksRev,
+      scanEqual]
+  · have hne : a.stop - a.start = 0 := by omega
+    simp only [hne, if_true, hn, if_false, bind, Except.bind, pure, Except.pure]
+    simp [truncateFront, truncateBack, iterateHunksRev, Hunk.range, hne, scanEqual]
+
+
+
+theorem writeHunks_single (inp : Input) (h : Hunk) (h1 : h.range.start ≤ h.range.stop)
+    (h2 : h.range.stop ≤ (inp.tokens h.side).length) :
+    writeHunks inp [h] = .ok (tokenPieces h.side (inp.tokens h.side) h.range.start h.range.stop) := by
+  simp only [writeHunks, sliceTokens, bind, Except.bind, pure, Except.pure]
+  rw [if_neg (by omega), if_neg (by omega)]
+  simp
+
+theorem render_nil : render [] = [] := rfl
+
+theorem keepMiddle_quiet (inp : Input) (labels : Labels) (style : Style) (ms : Nat) (out : List Piece) (iu : Nat)
+    (front ours theirs : List Hunk) (fh lh : Hunk) (ho : ours.isEmpty = false) (ht : theirs.isEmpty = false)
+    (hc : (containsLines ours || containsLines theirs) = false) :
+    keepMiddle inp labels style ms out iu front ours theirs fh lh = .ok (out, false) := by
+  unfold keepMiddle
+  simp only [ho, ht, Bool.false_eq_true, if_false, bind, Except.bind, pure, Except.pure]
+  obtain ⟨r1, h1⟩ := detectLineEnding_ok inp (if front.isEmpty then
+      [{ before := ⟨iu, fh.before.start⟩, after := ⟨0, 0⟩, side := .ancestor }] else front)
+  obtain ⟨r2, h2⟩ := detectLineEnding_ok inp ours
+  rw [h1]
+  cases r1 with
+  | none => simp only [h2]; cases style <;> simp [hc]
+  | some nl => cases style <;> simp [hc]
+
+theorem keepMiddle_diff3_equal (inp : Input) (labels : Labels) (ms : Nat) (out : List Piece) (iu : Nat)
+    (front ours theirs : List Hunk) (fh lh : Hunk) (w : List Piece) (ho : ours.isEmpty = false)
+    (ht : theirs.isEmpty = false) (hc : (containsLines ours || containsLines theirs) = true)
+    (hd : hunksDifferInDiff3 .diff3 inp ours theirs = false) (hw : writeHunks inp ours = .ok w) :
+    keepMiddle inp labels .diff3 ms out iu front ours theirs fh lh = .ok (out ++ w, false) := by
+  unfold keepMiddle
+  simp only [ho, ht, Bool.false_eq_true, if_false, bind, Except.bind, pure, Except.pure]
+  obtain ⟨r1, h1⟩ := detectLineEnding_ok inp (if front.isEmpty then
+      [{ before := ⟨iu, fh.before.start⟩, after := ⟨0, 0⟩, side := .ancestor }] else front)
+  obtain ⟨r2, h2⟩ := detectLineEnding_ok inp ours
+  rw [h1]
+  cases r1 with
+  | none => simp [h2, hc, hd, hw]
+  | some nl => simp [hc, hd, hw]
+
+/-- what a group of two identical hunks (same change on both sides) contributes, in every mode -/
+theorem sectionFor_same (base side : List Bytes) (labels : Labels) (conflict : Conflict) (out : List Piece)
+    (iu : Nat) (b a : Range) (_hb1 : b.start ≤ b.stop) (_hb2 : b.stop ≤ base.length)
+    (ha1 : a.start ≤ a.stop) (ha2 : a.stop ≤ side.length) (_hne : ¬(b.start = b.stop ∧ a.start = a.stop)) :
+    ∃ s, sectionFor ⟨base, side, side⟩ labels conflict out iu (Hunk.mk b a .current) [Hunk.mk b a .other] = .ok s ∧
+      s.conflict = false ∧ s.upTo = b.stop ∧
+      render s.pieces = render out ++ render (writeAncestor ⟨base, side, side⟩ iu b.start) ++
+        ((side.drop a.start).take (a.stop - a.start)).flatten := by
+  have hA : writeHunks (Input.mk base side side) [Hunk.mk b a .current] = .ok (tokenPieces .current side a.start a.stop) :=
+    writeHunks_single (Input.mk base side side) _ ha1 ha2
+  have hB : writeHunks (Input.mk base side side) [Hunk.mk b a .other] = .ok (tokenPieces .other side a.start a.stop) :=
+    writeHunks_single (Input.mk base side side) _ ha1 ha2
+  have hrA : render (tokenPieces .current side a.start a.stop) = ((side.drop a.start).take (a.stop - a.start)).flatten :=
+    tokenPieces_render _ _ _ _ ha2
+  have hrB : render (tokenPieces .other side a.start a.stop) = ((side.drop a.start).take (a.stop - a.start)).flatten :=
+    tokenPieces_render _ _ _ _ ha2
+  have hW0 : writeHunks (Input.mk base side side) [] = .ok [] := rfl
+  have hf1 : fillAncestor b [Hunk.mk b a .other] = .ok [Hunk.mk b a .other] := fillAncestor_single b _ rfl
+  have hf2 : fillAncestor ⟨b.start, b.stop⟩ [Hunk.mk b a .current] = .ok [Hunk.mk b a .current] :=
+    fillAncestor_single _ _ rfl
+  unfold sectionFor
+  simp only [bind, Except.bind, hf1, expect, List.head?_cons, List.getLast?_singleton, hf2]
+  cases conflict with
+  | ours =>
+    simp only [sectionPick, oursTheirs, bind, Except.bind, pure, Except.pure, if_true, List.head?_cons,
+      List.getLast?_singleton, hA]
+    refine ⟨_, rfl, ?_⟩
+    refine ⟨rfl, rfl, ?_⟩
+    simp [render_append, hrA]
+  | theirs =>
+    simp only [sectionPick, oursTheirs, bind, Except.bind, pure, Except.pure, Bool.false_eq_true, if_false,
+      List.head?_cons, List.getLast?_singleton, hB]
+    refine ⟨_, rfl, ?_⟩
+    refine ⟨rfl, rfl, ?_⟩
+    simp [render_append, hrB]
+  | union =>
+    simp only [sectionUnion, contract_same (Input.mk base side side) rfl b a ha1 ha2, bind, Except.bind, pure, Except.pure]
+    by_cases hn : a.start < a.stop
+    · simp only [hn, if_true, oursTheirs, expect, orElse, List.head?_cons, List.head?_nil, List.getLast?_singleton,
+        List.getLast?_nil, hA, hW0, containsLines, List.any_nil, Bool.or_false, Bool.false_eq_true, if_false]
+      refine ⟨_, rfl, ?_⟩
+      refine ⟨rfl, rfl, ?_⟩
+      simp [render_append, hrA, render_nil]
+    · have hempty : a.isEmpty = true := by simp [Range.isEmpty]; omega
+      have hr0 : ((side.drop a.start).take (a.stop - a.start)).flatten = [] := by
+        have : a.stop - a.start = 0 := by omega
+        simp [this]
+      simp only [hn, if_false, oursTheirs, expect, orElse, List.head?_cons, List.head?_nil, List.getLast?_singleton,
+        List.getLast?_nil, hA, hB, hW0, containsLines, List.any_cons, List.any_nil, hempty, Bool.not_true, Bool.or_false,
+        Bool.false_eq_true, if_false]
+      refine ⟨_, rfl, ?_⟩
+      refine ⟨rfl, rfl, ?_⟩
+      simp [render_append, hrA, hrB, render_nil, hr0]
+  | keep style ms =>
+    have hcs := contract_same (Input.mk base side side) rfl b a ha1 ha2
+    by_cases hn : a.start < a.stop
+    · have hcl : containsLines [Hunk.mk b a .current] = true := by
+        simp [containsLines, Range.isEmpty, hn]
+      cases style with
+      | diff3 =>
+        have hd : hunksDifferInDiff3 .diff3 (Input.mk base side side) [Hunk.mk b a .current] [Hunk.mk b a .other] = false := by
+          simp [hunksDifferInDiff3, Input.tokens]
+        simp only [sectionKeep, contractFor, bind, Except.bind, pure, Except.pure, oursTheirs, expect, orElse,
+          List.head?_cons, List.head?_nil, List.getLast?_singleton, List.getLast?_nil, hW0, List.append_nil]
+        rw [keepMiddle_diff3_equal _ _ _ _ _ _ _ _ _ _ _ rfl rfl (by simp [hcl]) hd hA]
+        refine ⟨_, rfl, ?_⟩
+        refine ⟨rfl, rfl, ?_⟩
+        simp [render_append, hrA, render_nil]
+      | merge =>
+        simp only [sectionKeep, contractFor, hcs, hn, if_true, bind, Except.bind, pure, Except.pure, oursTheirs,
+          expect, orElse, List.head?_cons, List.head?_nil, List.getLast?_singleton, List.getLast?_nil, hA, hW0,
+          keepMiddle, List.isEmpty_nil]
+        refine ⟨_, rfl, ?_⟩
+        refine ⟨rfl, rfl, ?_⟩
+        simp [render_append, hrA, render_nil]
+      | zdiff3 =>
+        simp only [sectionKeep, contractFor, hcs, hn, if_true, bind, Except.bind, pure, Except.pure, oursTheirs,
+          expect, orElse, List.head?_cons, List.head?_nil, List.getLast?_singleton, List.getLast?_nil, hA, hW0,
+          keepMiddle, List.isEmpty_nil]
+        refine ⟨_, rfl, ?_⟩
+        refine ⟨rfl, rfl, ?_⟩
+        simp [render_append, hrA, render_nil]
+    · have hempty : a.isEmpty = true := by simp [Range.isEmpty]; omega
+      have hr0 : ((side.drop a.start).take (a.stop - a.start)).flatten = [] := by
+        have : a.stop - a.start = 0 := by omega
+        simp [this]
+      have hq : ∀ (st : Style) (o : List Piece) (fr : List Hunk),
+          keepMiddle (Input.mk base side side) labels st ms o iu fr [Hunk.mk b a .current] [Hunk.mk b a .other]
+            (Hunk.mk b a .current) (Hunk.mk b a .other) = .ok (o, false) := by
+        intro st o fr
+        exact keepMiddle_quiet _ _ _ _ _ _ _ _ _ _ _ rfl rfl (by simp [containsLines, hempty])
+      cases style <;>
+        simp only [sectionKeep, contractFor, hcs, hn, if_false, bind, Except.bind, pure, Except.pure, oursTheirs,
+          expect, orElse, List.head?_cons, List.head?_nil, List.getLast?_singleton, List.getLast?_nil, hW0, hq,
+          List.append_nil] <;>
+        (refine ⟨_, rfl, ?_⟩; refine ⟨rfl, rfl, ?_⟩; simp [render_append, render_nil, hr0])
+
+
+
+theorem take_pair (b a : Range) (rest : List (Range × Range)) :
+    takeIntersecting (Hunk.mk b a .current) (Hunk.mk b a .other :: pairUp rest) =
+      ([Hunk.mk b a .other], pairUp rest) := by
+  have hcond : ((Hunk.mk b a Side.other).side != (Hunk.mk b a Side.current).side &&
+      ((Hunk.mk b a Side.current).before.contains (Hunk.mk b a Side.other).before.start ||
+        ((Hunk.mk b a Side.current).before.isEmpty &&
+          (Hunk.mk b a Side.current).before.start == (Hunk.mk b a Side.other).before.start))) = true := by
+    simp only [Range.contains, Range.isEmpty]
+    by_cases h : b.start < b.stop <;> simp [h]
+  unfold takeIntersecting
+  rw [if_pos hcond]
+  cases rest with
+  | nil => simp [pairUp, takeIntersecting]
+  | cons x xs =>
+    obtain ⟨b', a'⟩ := x
+    simp [pairUp, takeIntersecting]
+
+theorem length_pairUp (hs : List (Range × Range)) : (pairUp hs).length = 2 * hs.length := by
+  induction hs with
+  | nil => rfl
+  | cons x rest ih =>
+    obtain ⟨b, a⟩ := x
+    simp only [pairUp, List.flatMap_cons, List.length_append, List.length_cons, List.length_nil] at ih ⊢
+    omega
+
+theorem mergeLoop_pairs (base side : List Bytes) (labels : Labels) (conflict : Conflict) :
+    ∀ (hs : List (Range × Range)) (pb ps : Nat) (first : Bool) (out : List Piece) (fuel : Nat),
+      2 * hs.length < fuel →
+      diffOkFrom base side pb ps first hs = true →
+      ps ≤ side.length →
+      render out = (side.take ps).flatten →
+      ∃ out' upTo, mergeLoop ⟨base, side, side⟩ labels conflict fuel (pairUp hs) out pb false = .ok (out', upTo, false) ∧
+        render (out' ++ writeAncestor ⟨base, side, side⟩ upTo base.length) = side.flatten := by
+  intro hs
+  induction hs with
+  | nil =>
+    intro pb ps first out fuel hf hok hps hout
+    cases fuel with
+    | zero => omega
+    | succ fuel =>
+      refine ⟨out, pb, rfl, ?_⟩
+      simp only [diffOkFrom, beq_iff_eq] at hok
+      by_cases hpb : pb ≤ base.length
+      · rw [render_append, writeAncestor_render ⟨base, side, side⟩ _ _ hpb (Nat.le_refl _), hout]
+        have ht : (base.drop pb).take (base.length - pb) = base.drop pb := List.take_of_length_le (by simp)
+        rw [ht, hok, ← List.flatten_append, List.take_append_drop]
+      · have hb : base.drop pb = [] := List.drop_eq_nil_of_le (by omega)
+        rw [hb] at hok
+        have : writeAncestor ⟨base, side, side⟩ pb base.length = [] := by
+          unfold writeAncestor; rw [if_pos (by show base.length < pb; omega)]
+        rw [this, List.append_nil, hout]
+        have h2 : side.take ps = side := by
+          have := congrArg List.length hok
+          simp at this
+          exact List.take_of_length_le (by omega)
+        rw [h2]
+  | cons x rest ih =>
+    intro pb ps first out fuel hf hok hps hout
+    obtain ⟨b, a⟩ := x
+    cases fuel with
+    | zero => simp at hf
+    | succ fuel =>
+      simp only [diffOkFrom, Bool.and_eq_true, decide_eq_true_eq, beq_iff_eq] at hok
+      obtain ⟨⟨⟨⟨⟨⟨⟨⟨⟨⟨h1, h2⟩, h3⟩, h4⟩, h5⟩, h6⟩, h7⟩, h8⟩, h9⟩, h10⟩, h11⟩ := hok
+      have hne : ¬(b.start = b.stop ∧ a.start = a.stop) := by
+        intro hh
+        simp [hh.1, hh.2] at h5
+      obtain ⟨s, hs, hc, hup, hr⟩ := sectionFor_same base side labels conflict out pb b a h1 h3 h2 h4 hne
+      have hout1 : render s.pieces = (side.take a.stop).flatten := by
+        rw [hr, hout, writeAncestor_render ⟨base, side, side⟩ pb b.start h6 (by simp; omega)]
+        simp only [h10]
+        rw [take_extend _ _ _ h7, take_extend _ _ _ h2]
+      obtain ⟨out', upTo, hloop, hfin⟩ := ih b.stop a.stop false s.pieces fuel (by simp at hf; omega) h11 h4 hout1
+      refine ⟨out', upTo, ?_, hfin⟩
+      have hpu : pairUp ((b, a) :: rest) = Hunk.mk b a .current :: Hunk.mk b a .other :: pairUp rest := by
+        simp [pairUp]
+      rw [hpu]
+      simp only [mergeLoop, take_pair, List.isEmpty_cons, Bool.not_false, if_true, bind, Except.bind, hs, hc, hup,
+        Bool.or_false]
+      exact hloop
+
+/-- `same_change`: both sides made the same change (same text, same hunks) ⇒ every mode yields
+that change, without conflict -/
+theorem merge_same_change (base side : List Bytes) (labels : Labels) (conflict : Conflict)
+    (hs : List (Range × Range)) (h : DiffOf base side hs) :
+    ∃ ps, merge ⟨base, side, side⟩ labels conflict hs hs = .ok (.complete, ps) ∧ render ps = side.flatten := by
+  have hsort := sort_pairs (base := base) (side := side) h.1
+  obtain ⟨out', upTo, hloop, hfin⟩ := mergeLoop_pairs base side labels conflict hs 0 0 true []
+    ((pairUp hs).length + 1) (by rw [length_pairUp]; omega) h.1 (Nat.zero_le _) (by simp [render])
+  refine ⟨out' ++ writeAncestor ⟨base, side, side⟩ upTo base.length, ?_, hfin⟩
+  unfold merge
+  have e1 : hs.map (fun x => match x with | (b, a) => Hunk.mk b a Side.current) = oneSide .current hs := rfl
+  have e2 : hs.map (fun x => match x with | (b, a) => Hunk.mk b a Side.other) = oneSide .other hs := rfl
+  simp only [bind, Except.bind, pure, Except.pure]
+  rw [e1, e2, hsort, hloop]
+  rfl
+
+
 end GixModel.C45
